@@ -367,21 +367,21 @@ func cmdCheck(args []string) int {
 		sort.Strings(warnings)
 		warnings = dedup(warnings)
 		cov := map[string]interface{}{
-			"obligations":          nObl,
-			"discharged":           discharged,
-			"checker_cmd":          fmt.Sprintf("/verif/bin/govc check -prop %s -tier %s (VC generation over go/ssa of /repo's working tree, tags=verif; solvers z3 4.8.12, z3-new 5.1.0, cvc5 1.0 raced per obligation, %ds each)", *prop, *tier, opts.timeoutS),
-			"trusted_base":         tb,
+			"obligations":              nObl,
+			"discharged":               discharged,
+			"checker_cmd":              fmt.Sprintf("/verif/bin/govc check -prop %s -tier %s (VC generation over go/ssa of /repo's working tree, tags=verif; solvers z3 4.8.12, z3-new 5.1.0, cvc5 1.0 raced per obligation, %ds each)", *prop, *tier, opts.timeoutS),
+			"trusted_base":             tb,
 			"functions_under_contract": funcs,
-			"obligations_by_kind":  byKind,
-			"discharged_by_solver": bySolver,
-			"solver_seconds":       roundMap(stats.seconds),
-			"solver_queries":       stats.queries,
-			"samples":              samples,
-			"known_findings_hit":   knownHits,
-			"undecided_functions":  undecided,
-			"generator_warnings":   warnings,
-			"integer_model":        "int/int64 mathematical (no overflow modelled); uint8/16/32/64 and int8/16/32 wrap modulo 2^N",
-			"vacuity_checks":       len(obls) - nObl,
+			"obligations_by_kind":      byKind,
+			"discharged_by_solver":     bySolver,
+			"solver_seconds":           roundMap(stats.seconds),
+			"solver_queries":           stats.queries,
+			"samples":                  samples,
+			"known_findings_hit":       knownHits,
+			"undecided_functions":      undecided,
+			"generator_warnings":       warnings,
+			"integer_model":            "int/int64 mathematical (no overflow modelled); uint8/16/32/64 and int8/16/32 wrap modulo 2^N",
+			"vacuity_checks":           len(obls) - nObl,
 		}
 		if opts.allThree {
 			cov["unstable_obligations"] = unstable
